@@ -1,7 +1,8 @@
 import GlmVerif.Spec.C02
-import GlmVerif.Gen.C02
-/-! table check of family `conv` against the model generated from /repo (kernel evaluation) -/
+import GlmVerif.Gen.C02.conv
+/-! table check of family `conv` against the model of its units generated from /repo (kernel evaluation) -/
 namespace Glm.Props.C02
 open Glm Glm.Spec.C02 Glm.Gen.C02
-theorem conv_ok : f_conv.ok lookup = true := by decide +kernel
+set_option maxHeartbeats 4000000 in
+theorem conv_ok : f_conv.ok (fun _ ks => conv_L ks) = true := by decide +kernel
 end Glm.Props.C02
